@@ -126,8 +126,7 @@ def generic_replay(path, h):
     d = json.load(open(path))
     cfg = d['witness']['cfg']
     hist = [tuple(e) for e in d['witness']['history']]
-    outs = []
-    for _ in range(2):
+    def one():
         explore.HARNESS = h
         w = W.AgentWorld(cfg)
         mon = h.Monitor(cfg, w)
@@ -140,7 +139,10 @@ def generic_replay(path, h):
             vs = mon.post(w, ev, obs, aobs)
             log.append((ev, aobs, w.reported_state(), round(w.sim.now - w.sim.t0, 6)))
             found += [v[0] for v in vs]
-        outs.append((log, found))
+        # violations evaluated once per state (nested continuations) rather than per transition
+        found += [k for k, _ in h.state_checks(cfg, tuple(hist), w, mon)]
+        return (log, found)
+    outs = report.twice(one)
     if outs[0] != outs[1]:
         print('HARNESS-ERROR: replay is not deterministic')
         return 2
